@@ -487,6 +487,8 @@ def handle (op : String) (args : List Sexp) : R Sexp := do
     let kc ← kuCheck.asBool
     let u ← match ← u.asAtom with
       | "server" => pure Spec.Purpose.serverAuth | "client" => pure Spec.Purpose.clientAuth
+      | "code" => pure Spec.Purpose.codeSigning | "email" => pure Spec.Purpose.emailProtection
+      | "timestamp" => pure Spec.Purpose.timeStamping | "ocsp" => pure Spec.Purpose.ocspSigning
       | s => throw s!"bad purpose {s}"
     let t ← t.asInt
     let mut ps : List CertParams := []
@@ -511,6 +513,8 @@ def handle (op : String) (args : List Sexp) : R Sexp := do
     -- the RFC 5280 validator on two real certificates (issuer, issued), nothing else given
     let u ← match ← u.asAtom with
       | "server" => pure Spec.Purpose.serverAuth | "client" => pure Spec.Purpose.clientAuth
+      | "code" => pure Spec.Purpose.codeSigning | "email" => pure Spec.Purpose.emailProtection
+      | "timestamp" => pure Spec.Purpose.timeStamping | "ocsp" => pure Spec.Purpose.ocspSigning
       | s => throw s!"bad purpose {s}"
     let dec (der : Bytes) : Option Spec.TbsCert :=
       match Spec.splitSigned der with
